@@ -1188,6 +1188,7 @@ fn items(thorough: bool) -> Vec<String> {
     for i in 0..seeds.len() {
         v.push(format!("tok:{i}:del")); v.push(format!("tok:{i}:dup")); v.push(format!("tok:{i}:swap"));
     }
+    for i in 0..seeds.len() { v.push(format!("allgames:{i}")); }
     for j in 0..(if thorough { REPL.len() } else { REPL_QUICK }) { for i in 0..seeds.len() { v.push(format!("tok:{i}:rep={j}")); } }
     if thorough { for &i in &smallest_seeds(&seeds, 5) { v.push(format!("tok:{i}:del2")); } }
     v
@@ -1216,6 +1217,27 @@ fn gen_cases(item: &str, thorough: bool) -> Vec<Case> {
     let mut cases = match parts[0] {
         "seed" => seeds().iter().map(|s| { let maps: Vec<&str> = s.map.iter().map(|m| m.as_str()).collect(); Case::new(tool(s.kind, s.game), s.src.clone(), &maps, format!("seed {}", s.name)).control() }).collect(),
         "tok" => tok_cases(parts[1].parse().unwrap(), parts[2], &seeds()),
+        // every seed of a tool compiled for EVERY game that tool supports (the text may or may not be valid there:
+        // signatures, registers and meta fields differ per game), plus every single-token deletion
+        "allgames" => {
+            let sds = seeds();
+            let s = &sds[parts[1].parse::<usize>().unwrap()];
+            let games: &[&str] = match s.kind {
+                Kind::Ecl => &["th06", "th07", "th08", "th09", "th095", "th10", "th13", "th17"],
+                Kind::Mission => &["th095", "th125", "th165"],
+                _ => &["th06", "th07", "th08", "th09", "th095", "th10", "alcostg", "th11", "th12", "th125", "th128", "th13", "th14", "th143", "th15", "th16", "th165", "th17", "th18", "th185"],
+            };
+            let maps: Vec<&str> = s.map.iter().map(|m| m.as_str()).collect();
+            let toks = lex(&s.src);
+            let mut out = vec![];
+            for g in games {
+                if *g == s.game { continue; }
+                let t = tool(s.kind, g);
+                out.push(Case::new(t, s.src.clone(), &maps, format!("{} as {g}", s.name)));
+                for (i, &(a, b)) in toks.iter().enumerate() { out.push(Case::new(t, format!("{}{}", &s.src[..a], &s.src[b..]), &maps, format!("{} as {g}: delete token {i}", s.name))); }
+            }
+            out
+        },
         "byte" => byte_cases(parts[1].parse().unwrap(), parts[2], &seeds(), thorough),
         "lit" => { let c: usize = parts[2].parse().unwrap(); lit_cases(parts[1]).into_iter().skip(c * LIT_CHUNK).take(LIT_CHUNK).collect() },
         "nest" => nest_cases(parts[1], parts[2], thorough),
